@@ -102,7 +102,8 @@ fn bits_of_bytes(b: &[u8]) -> Vec<bool> {
 fn unaligned_cell(r: &mut crate::rng::Rng, b: &[u8], align: usize) -> Cell {
     let mut bits: Vec<bool> = (0..align).map(|_| r.bool()).collect();
     bits.extend(bits_of_bytes(b));
-    let trail = r.below(12);
+    // byte-aligned carriers (a payload behind a header, a prefix, an inner slice) come with and without bytes behind them
+    let trail = if align % 8 == 0 && r.bool() { 0 } else if align % 8 == 0 { 8 * (r.below(3) + 1) } else { r.below(12) };
     for _ in 0..trail {
         bits.push(r.bool());
     }
@@ -566,7 +567,9 @@ pub fn run(ctx: &mut Ctx) {
                 ctx.tag(&format!("tail:{}:{}", enc, match *enc { "base64" => len % 3, "zero85" => len % 4, _ => len % 5 }));
                 let t0 = roundtrip(ctx, &base, enc, bytes_cell(&b), &b, false);
                 // one unaligned carrier per pattern (all seven offsets for the five basic patterns)
-                let aligns: Vec<usize> = if name.starts_with("one-") { vec![1 + (len + b.iter().map(|x| *x as usize).sum::<usize>()) % 7] } else { (1..8).collect() };
+                let mut aligns: Vec<usize> = if name.starts_with("one-") { vec![1 + (len + b.iter().map(|x| *x as usize).sum::<usize>()) % 7] } else { (1..8).collect() };
+                // and one byte-aligned slice of a longer buffer: the payload after 1..3 header bytes
+                aligns.push(8 * (1 + (len + name.len()) % 3));
                 for a in aligns {
                     ctx.tag(&format!("align:{}", a));
                     let c = unaligned_cell(&mut ctx.rng, &b, a);
